@@ -137,6 +137,23 @@ func genC15(t *rapid.T) (c C15Case) {
 		}
 		c.Z = genRecvPrev(t, c.P, c.M)
 	case "setfloat":
+		if rapid.IntRange(0, 5).Draw(t, "nearboundary") == 0 {
+			// a binary value m * 2^k (|k| up to 3000: far beyond what the receiver's precision holds, so the conversion
+			// scales) constructed to lie 10^-(P+9)..10^-(P+100) from a number of P digits: the "few dozen units" bound
+			// and the receiver's attributes must survive whatever an implementation does when it cannot decide
+			pc := genPow2Near(t, 3000)
+			body := strings.TrimPrefix(pc.S, "-")
+			i := strings.IndexByte(body, 'p')
+			mi, _ := new(big.Int).SetString(body[:i], 10)
+			k, _ := strconv.Atoi(body[i+1:])
+			if strings.HasPrefix(pc.S, "-") {
+				mi.Neg(mi)
+			}
+			c.FM, c.FE, c.FP = mi.String(), k, uint(mi.BitLen()+rapid.IntRange(0, 70).Draw(t, "nbp"))
+			c.P, c.M = pc.P, pc.M
+			c.Z = nil
+			return c
+		}
 		c.FK = rapid.SampledFrom([]string{"", "", "", "", "", "+inf", "-inf", "+0", "-0"}).Draw(t, "fk")
 		c.FP = uint(rapid.IntRange(1, 300).Draw(t, "fp"))
 		if rapid.IntRange(0, 4).Draw(t, "fpbig") == 0 {
